@@ -136,6 +136,9 @@ def run_schedule(sh, w, tok, program, strategy, tag, rebuild_probe=True):
     if s.deadlock:
         sh.violation('deadlock|' + tag, {'info': s.deadlock_info}, case)
         return s, False
+    if getattr(s, 'double_lock', None):
+        sh.violation('lock_created_twice_for_one_object|%s' % s.double_lock['class'], dict(s.double_lock), case)
+        return s, False
     if s.inside_lib_preemptions:
         sh.nt(s.signature())
     bad = False
